@@ -75,7 +75,7 @@ impl Property for C16 {
             .boxed()
     }
     fn cases(&self, tier: Tier) -> u64 {
-        tier.pick(400_000, 14_000_000)
+        tier.pick(3_000_000, 30_000_000)
     }
     fn enumerate(&self, _tier: Tier, shard: usize, nshards: usize, emit: &mut Emit<Case>) {
         let mut ns: Vec<u64> = (1..2000).collect();
@@ -130,6 +130,10 @@ impl Property for C16 {
                 let z = zero_word(&c.lang, c.zsel.first().copied().unwrap_or(0));
                 let text = format!("{}{} {}{}", c.prefix, num.join(" "), z, c.suffix);
                 let want = format!("{}{} 0{}", c.prefix, c.n, c.suffix);
+                if neuf_set_aside(&c.lang, &text) {
+                    obs.exclude("fr-neuf-heuristic-set-aside");
+                    return Ok(());
+                }
                 let out = replace_numbers_in_text(&text, lg, 0.0);
                 if out != want {
                     return Err(format!("{} zero after a number: rewrite of {:?} = {:?}, expected {:?}", tag, text, out, want));
@@ -147,6 +151,10 @@ impl Property for C16 {
                 }
                 let text = format!("{}{}{}", c.prefix, z, c.suffix);
                 let want = format!("{}0{}", c.prefix, c.suffix);
+                if neuf_set_aside(&c.lang, &text) {
+                    obs.exclude("fr-neuf-heuristic-set-aside");
+                    return Ok(());
+                }
                 let out = replace_numbers_in_text(&text, lg, 0.0);
                 if out != want {
                     return Err(format!("{} lone zero: rewrite of {:?} = {:?}, expected {:?}", tag, text, out, want));
